@@ -5,7 +5,8 @@ from .. import proofgate, composer
 from .. import jubjub as J
 
 THEOREMS = ["C07_append_witness", "C07_append_gate", "C07_append_evaluated_output", "C07_gate_add", "C07_select",
-            "C07_range", "C07_decomposition", "C07_truncate", "C07_logic", "C07_sequence"]
+            "C07_range", "C07_decomposition", "C07_truncate", "C07_logic", "C07_sequence",
+            "C07_point_add", "C07_point_neg", "C07_point_select_identity", "C07_point_torsion", "C07_point_mul", "C07_canonical_scalar"]
 
 def value_classes(rng, k):
     RJ_ = RJ
